@@ -16,6 +16,10 @@
 (* generated history carries the model's prediction, and a difference      *)
 (* between prediction and recorded block is reported as DRIFT.             *)
 (*                                                                         *)
+(* Backward = TRUE gives BHP (bhp.go): a match found at i is extended to    *)
+(* the left over the pending literals as far as the bytes in front of the  *)
+(* source agree (lcs); this is what C19.left_maximal demands.              *)
+(*                                                                         *)
 (* Actions: Write, Parse(flags) (the scan loop statement by statement: the *)
 (* lookup replaces the slot before the candidate is examined, window and   *)
 (* minimum-length tests, extension clipped at the block end, covered       *)
@@ -31,7 +35,8 @@
 (***************************************************************************)
 EXTENDS ParserSM, HPHash, Json
 
-CONSTANTS Alpha, Scope, MaxInp, MaxWrite, EmitOps
+CONSTANTS Alpha, Scope, MaxInp, MaxWrite, EmitOps,
+          Backward   \* TRUE: the backward extending variant BHP (bhp.go), FALSE: HP
 
 (* configurations explored (BufferSize, ShrinkSize, WindowSize, BlockSize,  *)
 (* InputLen, HashBits): tiny buffers, windows smaller and larger than the  *)
@@ -39,7 +44,7 @@ CONSTANTS Alpha, Scope, MaxInp, MaxWrite, EmitOps
 Geoms ==
   IF Scope = "quick"
   THEN { [B |-> b, S |-> 2, Wnd |-> wd, Blk |-> k, il |-> 2, hb |-> h] :
-           b \in {5}, wd \in {2, 8}, k \in {3, 8}, h \in {1, 2} }
+           b \in {6}, wd \in {3, 8}, k \in {3, 8}, h \in {1, 2} }
   ELSE { [B |-> b, S |-> sz, Wnd |-> wd, Blk |-> k, il |-> il, hb |-> h] :
            b \in {4, 6}, sz \in {1, 3}, wd \in {1, 3, 8}, k \in {2, 3, 8}, il \in {2, 3}, h \in {1, 2} }
 
@@ -55,14 +60,15 @@ Bytes(n) == SeqsUpTo(Alpha, n)
 NSlots == CASE cf.hb = 1 -> 2 [] cf.hb = 2 -> 4 [] OTHER -> 8
 Empty == [s \in 0..7 |-> <<0, 0>>]
 
-Cfg(c) == [kind |-> "HP", B |-> c.B, S |-> c.S, Wnd |-> c.Wnd, Blk |-> c.Blk, il |-> c.il, mm |-> 0, xm |-> 0]
+Kind == IF Backward THEN "BHP" ELSE "HP"
+Cfg(c) == [kind |-> Kind, B |-> c.B, S |-> c.S, Wnd |-> c.Wnd, Blk |-> c.Blk, il |-> c.il, mm |-> 0, xm |-> 0]
 
 Init ==
   /\ cf \in Geoms
   /\ data = <<>> /\ w = 0 /\ off = 0 /\ table = Empty
   /\ st = PInit(Cfg(cf))
   /\ ev = [op |-> "begin"]
-  /\ ops = <<[op |-> "begin", kind |-> "HP", BufferSize |-> cf.B, ShrinkSize |-> cf.S, WindowSize |-> cf.Wnd,
+  /\ ops = <<[op |-> "begin", kind |-> Kind, BufferSize |-> cf.B, ShrinkSize |-> cf.S, WindowSize |-> cf.Wnd,
               BlockSize |-> cf.Blk, InputLen |-> cf.il, HashBits |-> cf.hb]>>
 
 (* gram value at index i (0-based) of d: the first InputLen bytes, little endian *)
@@ -90,6 +96,13 @@ ClipLcpD(d, j, i, e, acc) ==
 
 MinMatch == IF cf.il < 3 THEN cf.il ELSE 3
 
+(* lcs(p[j-back:j], p[:i]): number of equal bytes in front of j and i, at most back *)
+RECURSIVE LcsD(_, _, _, _, _)
+LcsD(d, j, i, back, acc) ==
+  IF acc >= back THEN acc
+  ELSE IF d[j - acc] # d[i - acc] THEN acc       \* bytes j-1-acc and i-1-acc (0-based)
+  ELSE LcsD(d, j, i, back, acc + 1)
+
 (* the scan loop: returns [tb, seqs, lit] *)
 RECURSIVE Scan(_, _, _, _, _, _)
 Scan(tb, i, e, inputEnd, litIndex, seqs) ==
@@ -103,9 +116,13 @@ Scan(tb, i, e, inputEnd, litIndex, seqs) ==
           THEN Scan(tb1, i + 1, e, inputEnd, litIndex, seqs)
           ELSE LET k == ClipLcpD(data, j, i, e, 0) IN
                IF k < MinMatch THEN Scan(tb1, i + 1, e, inputEnd, litIndex, seqs)
-               ELSE LET li2 == i + k
-                        tb2 == InsRange(tb1, data, i + 1, Min(li2, inputEnd))
-                    IN Scan(tb2, li2, e, inputEnd, li2, Append(seqs, <<i - litIndex, k, o, 0>>))
+               ELSE LET back == IF Backward THEN Min(i - litIndex, j) ELSE 0
+                        m   == IF back > 0 THEN LcsD(data, j, i, back, 0) ELSE 0    \* BHP: extend to the left
+                        i2  == i - m
+                        k2  == k + m
+                        li2 == i2 + k2
+                        tb2 == InsRange(tb1, data, i2 + 1, Min(li2, inputEnd))
+                    IN Scan(tb2, li2, e, inputEnd, li2, Append(seqs, <<i2 - litIndex, k2, o, 0>>))
 
 RECURSIVE LitsOf(_, _, _, _)
 LitsOf(seqs, k, pos, acc) ==
